@@ -92,7 +92,7 @@ def main():
                 results[r_] = results.get(r_, 0) + 1
     R.coverage["distinct_nontrivial"] = len(seen)
     R.coverage["rule"] = ("histories of 1..40 Store / Await* / cancel / expire / PubKeyByAttestation operations against dutydb.NewMemDB with a scripted core.Deadliner "
-                          "in a synctest bubble (17 scenario templates first, then random histories over 2 slots x few committees/validators/variants so that keys overlap; the scripted deadliner's Add has a hook: while a Store is between its expiry verdict and the rest of the call the harness emits duties on C() and starts a complete other Store - on code that locks around Add that one can only run afterwards, the observed order is recorded from in-call stamps (Add, Clone); aggregates for one key with fewer / equal / strictly more aggregation bits and other signatures; "
+                          "in a synctest bubble (29 scenario templates first (incl. per duty type: blocked query, failing multi-entry Store that writes the awaited key, then a successful Store that adds nothing new), then random histories over 2 slots x few committees/validators/variants so that keys overlap; the scripted deadliner's Add has a hook: while a Store is between its expiry verdict and the rest of the call the harness emits duties on C() and starts a complete other Store - on code that locks around Add that one can only run afterwards, the observed order is recorded from in-call stamps (Add, Clone); aggregates for one key with fewer / equal / strictly more aggregation bits and other signatures; "
                           "equal, conflicting and partially conflicting sets, multi-entry sets whose k-th entry clashes, wrong-type entries, cancellations, races, expiries); "
                           "non-trivial = at least one query that blocked and was resolved later, or at least one clash; distinct by hash of the observed label sequence")
     bad = [(h["id"], l) for h in hs for l in h["labels"] if "LBAD" in l]
